@@ -38,7 +38,7 @@ var envProgs = []struct{ name, src string }{
   print ENVIRON["C19VAR"], a, b, (a == c)
   printf "%5.2f|%-8s|%03d|%c|%x|%e\n", 3.14159, ID, SEED, 65, 255, SEED
   re = "^g" SEED "-"; print (ID ~ re), match(ID, "-[0-9]+$"), RSTART
-  s = ID; n = gsub(/[0-9]/, "#", s); print n, s; print length(ENVIRON) > 0 }`},
+  s = ID; n = gsub(/[0-9]/, "#", s); print n, s; print (length(ENVIRON) > 0) }`},
 	{"mixed", `function sh(c,   l, out) { while ((c | getline l) > 0) out = out l ";"; close(c); return out }
 { t = t sh("echo " $1 "-" ID) }
 END { print t; system("echo end-" ID); print ENVIRON["C19VAR"] }`},
